@@ -443,3 +443,79 @@ def check_c13(rep):
 
 
 REGISTRY.update({"C13": (check_c13, "model_checking")})
+
+
+# --------------------------------------------------------------------------------------------------
+# C16 seeded generator
+# --------------------------------------------------------------------------------------------------
+def check_c16(rep):
+    quick = rep.tier == "quick"
+    wd = workdir("C16")
+    sizes = [0, 1, 3, 4, 5, 7, 8, 9, 64, 4095, 4096, 4097, 8191]
+    maxpos = 8300 if quick else 12400
+    mc = ["---- MODULE MC_Rng ----", "EXTENDS BlakeRng, Json",
+          'PosView == p',
+          'EmitS == PrintT(<<"S", ToJson([p |-> p, hist |-> hist])>>)',
+          'EmitT == PrintT(<<"T", ToJson([p |-> p, step |-> hist\'[Len(hist\')]])>>)', "===="]
+    open(os.path.join(wd, "MC_Rng.tla"), "w").write("\n".join(mc) + "\n")
+    cfg = os.path.join(wd, "MC_Rng.cfg")
+    open(cfg, "w").write("SPECIFICATION Spec\nCONSTANTS\n  Sizes = {%s}\n  MaxPos = %d\nVIEW PosView\nINVARIANTS Monotone FillContiguous EmitS\nACTION_CONSTRAINT EmitT\nCHECK_DEADLOCK FALSE\n"
+                         % (", ".join(map(str, sizes)), maxpos))
+    paths, trans = {}, []
+
+    def on_line(tag, o):
+        if tag == "S":
+            paths.setdefault(o["p"], o["hist"])
+        else:
+            trans.append((o["p"], o["step"]))
+    r = run_tlc("MC_Rng", cfg, wd, workers=8, timeout=1500, on_line=on_line)
+    if r["violated"]:
+        raise ToolError("BlakeRng.tla: %s violated" % r["violated"])
+    tlc_must_pass(r, "MC_Rng")
+    behs = []
+    for i, (p, step) in enumerate(trans):
+        if p in paths:
+            behs.append({"id": i, "seed": i % 8, "steps": paths[p] + [step]})
+    bp = os.path.join(wd, "stream.ndjson")
+    open(bp, "w").write("\n".join(json.dumps(b) for b in behs) + "\n")
+    out = hcv(["c16", "stream", bp], timeout=1500).splitlines()
+    if len(out) != len(behs):
+        raise ToolError("stream replayer returned %d results for %d behaviours" % (len(out), len(behs)))
+    nv = 0
+    for b, line in zip(behs, out):
+        o = json.loads(line)
+        if o["status"] != "ok":
+            nv += 1
+            st = b["steps"][-1]
+            rep.violation({"part": "stream", "op": st["op"], "crosses_refill": st["from"] // 4096 != max(st["to"] - 1, st["from"]) // 4096},
+                          {"behaviour": b, "observed": o})
+    # recorded histories, samples, frequencies validated by TLC
+    raw = []
+    for ps in (["bfv_8_17_40,40,40", "ckks_8_0_40,40,40"] if quick else ["bfv_8_17_40,40,40", "bgv_8_17_40,40,40", "ckks_8_0_40,40,40", "bfv_16_97_50,50,50,50"]):
+        raw += hcv(["c16", "events", ps, str(rep.seed), rep.tier], timeout=900).splitlines()
+    raw += hcv(["c16", "samples", str(rep.seed), rep.tier], timeout=900).splitlines()
+    bad, st = arith.validate(raw, wd, module="Trace_Rng", chunks=4 if quick else 8)
+    for b in bad:
+        e = json.loads(raw[b[0] - 1])
+        sig = {"part": e["ev"], "what": e.get("what") or e.get("k") or e.get("pset")}
+        small = {k: v for k, v in e.items() if k not in ("events", "poly")}
+        rep.violation(sig, {"event": small, "line": b[0]})
+    rep.cov["states"] = r["distinct"] + st["distinct"]
+    rep.cov["transitions"] = r["generated"] + st["generated"]
+    rep.cov["traces_validated_against_impl"] = len(behs) + len(raw)
+    rep.cov["evaluations"] = len(behs) + len(raw)
+    rep.cov["distinct_nontrivial"] = len({(p, s["op"], s["n"]) for p, s in trans})
+    rep.cov["stream_positions"] = len(paths)
+    rep.cov["stream_transitions"] = len(trans)
+    rep.cov["exhaustive"] = True
+    rep.cov["rule"] = ("stream: every (position, call) pair of BlakeRng.tla with position <= %d and call in fill_bytes(%s), next_u32, next_u64, each reached by TLC's shortest call "
+                       "sequence and compared byte-for-byte with an independent BLAKE3-XOF recomputation of the documented stream for 8 seeds; histories: masks / stored seeds of "
+                       "mixed encryptions and key generations pairwise distinct, equal explicit generator states give equal masks (seeded and unseeded variants), 32-byte stream "
+                       "windows distinct; samples: ternary / error / uniform polynomials for 1..6 primes; frequencies as sanity bounds" % (maxpos, sizes))
+    rep.samples += [behs[0], behs[len(behs) // 2]]
+    rep.assumptions += ["the reference stream is BLAKE3-XOF(seed || le64(counter)) in 4096-byte blocks, recomputed with the blake3 crate independently of BlakeRNG",
+                        "masks are compared through 96-bit BLAKE3 digests", "distribution checks are 6-7 sigma sanity bounds, not decisions"]
+    log("[C16] %d stream transitions (%d mismatches), %d recorded events (%d rejected)" % (len(behs), nv, len(raw), len(bad)))
+
+
+REGISTRY.update({"C16": (check_c16, "model_checking")})
